@@ -118,7 +118,7 @@ func runC20(r *Run) {
 		for _, br := range branchesIn(cl) {
 			if e, ok := stripValue(br.Info.Root).(*ssa.Extract); ok && e.Tuple == enc[0].Value() && e.Index == 1 {
 				if s, ok := br.nilSlot(false); ok {
-					_, hit := reach(pointOfEdge(edge{br.If.Block(), s}), orPred(isSetCookie, isReturn), nil, nil)
+					_, hit := reachEdge(edge{br.If.Block(), s}, orPred(isSetCookie, isReturn), nil, nil)
 					okErr = hit == nil
 				}
 			}
@@ -127,7 +127,7 @@ func runC20(r *Run) {
 		de := disabledEdges(cl, true)
 		okEx := len(de) > 0
 		for _, e := range de {
-			if _, hit := reach(pointOfEdge(e), isSetCookie, nil, nil); hit != nil {
+			if _, hit := reachEdge(e, isSetCookie, nil, nil); hit != nil {
 				okEx = false
 			}
 		}
@@ -197,7 +197,7 @@ func runC20(r *Run) {
 				decided = true
 				direct := len(dec[f]) > 0
 				if direct {
-					_, hit := reach(pointOfEdge(e), isReturn, nil, func(in ssa.Instruction) bool {
+					_, hit := reachEdge(e, isReturn, nil, func(in ssa.Instruction) bool {
 						return isCallTo(in, isReqRewrite)
 					})
 					r.check(hit == nil, "request-visitor:not-excepted⇒rewritten", r.fpos(f), "every non-excepted cookie is rewritten (plaintext or empty) on every path", "a non-excepted request cookie can reach the handler as sent by the client")
@@ -216,7 +216,7 @@ func runC20(r *Run) {
 							}
 						}
 					}
-					_, hit := reach(pointOfEdge(e), isReturn, cut, func(in ssa.Instruction) bool {
+					_, hit := reachEdge(e, isReturn, cut, func(in ssa.Instruction) bool {
 						st, ok := in.(*ssa.Store)
 						if !ok {
 							return false
